@@ -9,10 +9,10 @@ Ms == {0, 10, 50, 100, 200}
 PhiOls == {3, 5, 7}
 Asms == {<<0, 1>>, <<1, 0>>}
 EffMob10(p, par) == par.M * Phi(p, par)        \* effective mobility in tenths
-Multi == {[M |-> m, chi |-> c, asm |-> a, phiOl |-> f] : m \in Ms, c \in {0, 3}, a \in Asms, f \in PhiOls}
+Multi == {[M |-> m, chi |-> c, asm |-> a, phiOl |-> f, x |-> <<5, 0>>] : m \in Ms, c \in {0, 3}, a \in Asms, f \in PhiOls}
 \* the single-phase partner: mobility M*phi/10 must be an integer here
 PairInit == pair \in {[phase |-> p, multi |-> mp,
-                       single |-> [M |-> EffMob10(p, mp) \div 10, chi |-> mp.chi, asm |-> <<p>>, phiOl |-> 10]] :
+                       single |-> [M |-> EffMob10(p, mp) \div 10, chi |-> mp.chi, asm |-> <<p>>, phiOl |-> 10, x |-> <<5, 0>>]] :
                         p \in {0, 1}, mp \in {x \in Multi : EffMob10(0, x) % 10 = 0 /\ EffMob10(1, x) % 10 = 0}}
 PairNext == UNCHANGED pair
 SameEffective == EffMob10(pair.phase, pair.multi) = EffMob10(pair.phase, pair.single)
